@@ -21,11 +21,53 @@ TRUSTED_COMMON = [
 ]
 
 
-def run_property(prop: str, tier: str, repo_root: str = None) -> int:
+NORMAL_FORMS = (("2", "new helpers inlined, new temporaries substituted"), ("1", "new helpers inlined"), ("0", "as written"))
+
+
+def _attempt(prop, tier, repo_root, mod, level):
+    """run the rules of one property on one normal form of the tree: (ctx, analysis error or None)"""
+    os.environ["VERIF_NORM_LEVEL"] = level
     repo = Repo(repo_root) if repo_root else Repo()
-    mod = importlib.import_module(f"sa.rules.{prop.lower()}")
     ctx = Ctx(prop, tier, repo, seed=int(os.environ.get("VERIF_SEED", "0") or 0))
-    mod.run(ctx)
+    try:
+        mod.run(ctx)
+        return ctx, None
+    except AnalysisError as e:
+        return ctx, e
+    except Exception as e:      # an internal error on one normal form must not hide a verdict on another
+        if level == "0":
+            raise
+        return ctx, AnalysisError(f"internal: {type(e).__name__}: {e}")
+
+
+def run_property(prop: str, tier: str, repo_root: str = None) -> int:
+    from .report import unlisted_findings
+    mod = importlib.import_module(f"sa.rules.{prop.lower()}")
+    # The rules are applied to inventory-anchored normal forms of the tree (sa/normalize.py).  Every normal form is a semantics-preserving rewrite of the same program, so a
+    # property that the rules establish on one of them holds for the program; the forms differ only when the tree contains functions / locals that the reference inventory
+    # does not know (on the reference tree all three coincide and the rules run once).  The most normalised form is tried first; a less normalised one is consulted only when
+    # the rules do not succeed, and the verdict of the first form is reported when none succeeds.
+    first = None
+    chosen = None
+    for level, what in NORMAL_FORMS:
+        ctx, err = _attempt(prop, tier, repo_root, mod, level)
+        changed = any(getattr(m, "normalized", False) for m in ctx.repo._mods.values())
+        if first is None:
+            first = (ctx, err, level, what)
+        if err is None and unlisted_findings(ctx) == 0:
+            chosen = (ctx, err, level, what)
+            break
+        if level == "2" and not changed:
+            break               # nothing to normalise: all forms coincide
+        if level == "1" and not changed:
+            break
+    ctx, err, level, what = chosen or first
+    if chosen is not None and chosen[2] != first[2]:
+        ctx.note(f"decided on the normal form `{what}` of the tree (the rules did not succeed on `{first[3]}`: "
+                 f"{'analysis error: ' + str(first[1])[:120] if first[1] is not None else str(unlisted_findings(first[0])) + ' findings'})")
+    if err is not None:
+        raise err
+    repo = ctx.repo
     st_ok, st_lines = True, []
     if tier == "thorough" and not os.environ.get("VERIF_NO_SELFTEST"):
         from . import selftest
